@@ -11,12 +11,22 @@ def mk_table(t):
     import numpy as np
     from msdm.core.distributions import DiscreteFactorTable as Pr
     rows = [json.loads(json.dumps(r)) for r in t["rows"]]
+    if t.get("sup") == "tuple":
+        rows = tuple(rows)
     ws = [fl(w) for w in t["w"]]
     if t.get("ctor") == "uniform":
         return Pr(rows)
     if t.get("ctor") == "logits":
-        return Pr(rows, logits=[(math.log(w) if w > 0 else -np.inf) for w in ws])
-    return Pr(rows, probs=ws)
+        ls = [(math.log(w) if w > 0 else -np.inf) for w in ws]
+        return Pr(rows, logits=np.array(ls) if t.get("arr") else ls)
+    return Pr(rows, probs=np.array(ws) if t.get("arr") else (tuple(ws) if t.get("sup") == "tuple" else ws))
+
+
+def touch(tb):
+    """use a table before it is combined: cached views / derived tables must not change it"""
+    _ = (tb.probs, tb.logits, len(tb), list(tb.items()), tb.keys())
+    if len(tb.support) > 0:
+        _ = (tb.prob(tb.support[0]), tb.logit(tb.support[-1]), tb.Z, tb & tb, tb * .5, tb.marginalize(lambda r: dict(r)))
 
 
 def restrict_nested(r, paths):
@@ -38,25 +48,30 @@ def restrict_nested(r, paths):
     return out
 
 
-def ev(e, tabs):
+def num(c, as_int):
+    x = fl(c)
+    return int(x) if (as_int and x == int(x)) else x
+
+
+def ev(e, objs, as_int=False):
     op = e[0]
     if op == "t":
-        return mk_table(tabs[e[1]])
+        return objs[e[1]]          # the SAME table object wherever the expression mentions it
     if op == "and":
-        return ev(e[1], tabs) & ev(e[2], tabs)
+        return ev(e[1], objs, as_int) & ev(e[2], objs, as_int)
     if op == "or":
-        return ev(e[1], tabs) | ev(e[2], tabs)
+        return ev(e[1], objs, as_int) | ev(e[2], objs, as_int)
     if op == "mul":
-        return ev(e[1], tabs) * fl(e[2])
+        return ev(e[1], objs, as_int) * num(e[2], as_int)
     if op == "rmul":
-        return fl(e[2]) * ev(e[1], tabs)
+        return num(e[2], as_int) * ev(e[1], objs, as_int)
     if op == "div":
-        return ev(e[1], tabs) / fl(e[2])
+        return ev(e[1], objs, as_int) / num(e[2], as_int)
     if op == "norm":
-        return ev(e[1], tabs).normalize()
+        return ev(e[1], objs, as_int).normalize()
     if op == "marg":
         paths = [tuple(p) for p in e[2]]
-        inner = ev(e[1], tabs)
+        inner = ev(e[1], objs, as_int)
         if len(inner.support) == 0:
             # msdm: marginalize of an empty table raises ValueError (zip(*()) unpack); outside the property,
             # mapped to the empty table here
@@ -67,15 +82,25 @@ def ev(e, tabs):
 
 def ft_case(case):
     import numpy as np
+    objs = [mk_table(t) for t in case["tables"]]
+    if case.get("touch"):
+        for tb in objs:
+            touch(tb)
+    before = [([json.dumps(r, sort_keys=True) for r in tb.support], list(map(float, tb.logits))) for tb in objs]
     try:
-        t = ev(case["expr"], case["tables"])
+        t = ev(case["expr"], objs, case.get("int_scalars", False))
+        t2 = ev(case["expr"], objs, case.get("int_scalars", False))     # same objects, second evaluation
     except AssertionError:
         return {"raised": "AssertionError"}
+    after = [([json.dumps(r, sort_keys=True) for r in tb.support], list(map(float, tb.logits))) for tb in objs]
     rows = [json.loads(json.dumps(r)) for r in t.support]
+    same = (list(map(lambda r: json.dumps(r, sort_keys=True), t.support)) == list(map(lambda r: json.dumps(r, sort_keys=True), t2.support))
+            and [fj(x) for x in t.logits] == [fj(x) for x in t2.logits] and [fj(x) for x in t.probs] == [fj(x) for x in t2.probs])
     return {"rows": rows,
             "w": [fj(np.exp(l)) for l in t.logits],
             "p": [fj(p) for p in t.probs],
-            "probq": [fj(t.prob(r)) for r in rows]}
+            "probq": [fj(t.prob(r)) for r in rows],
+            "repeat_same": bool(same), "operands_unchanged": before == after}
 
 
 # ---------------------------------------------------------------- grid games
@@ -93,12 +118,52 @@ def pos_of(gg, s):
     return out
 
 
-def gg_case(case):
-    from msdm.domains.gridgame.tabulargridgame import TabularGridGame, TERMINALSTATE
-    kw = {"fence_success_prob": fl(case["fence_p"])}
+def build_game(case):
+    from msdm.domains.gridgame.tabulargridgame import TabularGridGame
+    fp = fl(case["fence_p"])
+    if case.get("fence_int") and fp == int(fp):
+        fp = int(fp)
+    kw = {"fence_success_prob": fp}
     if case.get("collision_prob") is not None:
         kw["collision_prob"] = fl(case["collision_prob"])
-    gg = TabularGridGame(case["layout"], **kw)
+    goal = (("G0", ("A0",)), ("G1", ("A1",)), ("G", ("A0", "A1")))
+    wall = (("[", "left"), ("]", "right"), ("^", "above"), ("_", "below"))
+    fence = (("{", "left"), ("}", "right"), ("~", "above"), ("u", "below"))
+    form = case.get("sym_form")
+    if form == "dict":
+        kw.update(goal_symbols=dict(goal), wall_symbols=dict(wall), fence_symbols=dict(fence))
+    elif form == "tuple":
+        kw.update(goal_symbols=goal, wall_symbols=wall, fence_symbols=fence, agent_symbols=("A0", "A1"), obstacle_symbols=("#",))
+    return TabularGridGame(case["layout"], **kw)
+
+
+def jas(gg, reverse=False):
+    out = []
+    for a0 in ACTIONS:
+        for a1 in ACTIONS:
+            items = [(gg.agent_names[0], {"x": a0[0], "y": a0[1]}), (gg.agent_names[1], {"x": a1[0], "y": a1[1]})]
+            if reverse:       # other key order, inside and outside
+                items = [(k, {"y": v["y"], "x": v["x"]}) for k, v in reversed(items)]
+            out.append(dict(items))
+    return out
+
+
+def reordered(s):
+    if s.get("isTerminal", False):
+        return dict(s)
+    return {k: {kk: s[k][kk] for kk in reversed(list(s[k].keys()))} for k in reversed(list(s.keys()))}
+
+
+def gg_case(case):
+    from msdm.domains.gridgame.tabulargridgame import TERMINALSTATE
+    # other games built and used first IN THIS PROCESS (class-level / module-level caches must not leak)
+    for wc in case.get("warmup", []):
+        wg = build_game(wc)
+        s0 = wg.initial_state_dist().support[0]
+        for ja in jas(wg):
+            wg.next_state_dist(s0, ja)
+        wg.reachable_states(MAX_STATES=8)
+    gg = build_game(case)
     facts = {"width": gg.width, "height": gg.height, "agent_names": list(gg.agent_names),
              "goals": [[g["x"], g["y"], list(g["owners"])] for g in gg.goals],
              "obstacles": [[o["x"], o["y"]] for o in gg.obstacles],
@@ -111,22 +176,32 @@ def gg_case(case):
     reach = [s for s in reach if not gg.is_terminal(s)][:case.get("max_states", 60)]
     states = reach + [dict(TERMINALSTATE)]
     out = []
+    JA = jas(gg)
     for s in states:
         rec = {"s": pos_of(gg, s), "is_terminal": bool(gg.is_terminal(s)),
                "is_absorbing": (bool(gg.is_absorbing(s)) if not gg.is_terminal(s) else None), "tr": [], "rew": []}
-        for a0 in ACTIONS:
-            for a1 in ACTIONS:
-                ja = {gg.agent_names[0]: {"x": a0[0], "y": a0[1]}, gg.agent_names[1]: {"x": a1[0], "y": a1[1]}}
-                d = gg.next_state_dist(s, ja)
-                rec["tr"].append([[pos_of(gg, ns), fj(p)] for ns, p in zip(d.support, d.probs)])
-                if gg.is_terminal(s):
-                    rr = []
-                    for ns in d.support:
-                        jr = gg.joint_rewards(s, ja, ns)
-                        rr.append([fj(jr[an]) for an in gg.agent_names])
-                    rec["rew"].append(rr)
+        for ja in JA:
+            d = gg.next_state_dist(s, ja)
+            rec["tr"].append([[pos_of(gg, ns), fj(p)] for ns, p in zip(d.support, d.probs)])
+            if gg.is_terminal(s):
+                rr = []
+                for ns in d.support:
+                    jr = gg.joint_rewards(s, ja, ns)
+                    rr.append([fj(jr[an]) for an in gg.agent_names])
+                rec["rew"].append(rr)
         out.append(rec)
-    return {"facts": facts, "states": out, "terminal_reachable": nterm > 0}
+    # second pass on the SAME game object, after everything was computed once, with the state and
+    # joint-action dictionaries in the opposite key order: must give identical distributions
+    mism = []
+    JR = jas(gg, reverse=True)
+    for k, s in enumerate(states):
+        s2 = reordered(s)
+        for j, ja in enumerate(JR):
+            d = gg.next_state_dist(s2, ja)
+            again = [[pos_of(gg, ns), fj(p)] for ns, p in zip(d.support, d.probs)]
+            if again != out[k]["tr"][j] and len(mism) < 5:
+                mism.append({"state": out[k]["s"], "ja_index": j, "first": out[k]["tr"][j], "again": again})
+    return {"facts": facts, "states": out, "terminal_reachable": nterm > 0, "repeat_mismatch": mism}
 
 
 def one(case, pl):
